@@ -1525,3 +1525,35 @@ def c19(ctx):
                        "exactly the known hex2uint/hex2int lines; distinct = input")
 
 CHECKS.update({"C18": c18, "C19": c19})
+
+
+# ------------------------------------------------------------------------------------------ replay
+def replay(pid, path):
+    """./check <ID> --replay <file>: run one replay file (an op script, or a damaged .c3d for the loader properties) again on the
+    instrumented library and on the model, with the property's oracle. Exit 1 (and a VIOLATION line naming the file) if it
+    still fails, KNOWN-FINDING lines for recorded findings, exit 0 otherwise. Writes no evidence."""
+    path = os.path.abspath(path)
+    if not os.path.exists(path): print("no such replay file:", path); return 2
+    if path.endswith(".c3d"):
+        lines = ["dumpmode shape", "load %s" % path]
+    else:
+        lines = [l for l in open(path, errors="replace").read().split("\n") if l.strip() and not l.startswith("#")]
+    ctx = core.Ctx(pid, "replay", 0)
+    ctx.audit = None
+    api = {"C05": oracles.c05, "C06": oracles.c06, "C07": oracles.c07, "C08": oracles.c08, "C09": oracles.c09, "C10": oracles.c10, "C11": oracles.c11}
+    if pid in api: oracle = api[pid]
+    elif pid in ("C01", "C03", "C04"): oracle = _file_oracle({pid})
+    else: oracle = None          # C02, C12-C19: an abort, a time-out or a disagreement with the model is the failure
+    if pid in ("C01", "C03", "C04"):
+        # the file oracles read the saved files: keep the work directory until the oracle has run
+        res = run.run_pair(lines, ctx.exe("asan"), keep=True, timeout=300)
+        ctx.record_pair(res, lines, "replay")
+        try:
+            for clause, where, detail in oracle(res):
+                if clause.startswith("_"): ctx.count("oracle" + clause)
+                else: ctx.fail(clause, where, detail, lines)
+        finally:
+            run.cleanup(res.wd)
+    else:
+        _run_scripts(ctx, [(lines, {}, "replay")], "replay", oracle, timeout=300)
+    return core.finish(ctx, "replay of %s" % path, replay_of=path)
